@@ -4,6 +4,7 @@ import ErrModel.Accessors
 import ErrModel.Shape
 import ErrModel.Compat
 import ErrModel.Grpc
+import ErrModel.Basic.Redact
 /-
   Observation streams printed by the driver (and, identically, by the harness
   from the real code).
@@ -195,6 +196,16 @@ def runLine (line : String) : String :=
     | .ok none => id ++ " (res (nil))"
     | .panic => id ++ " (res (panic))"
     | .bad why => id ++ " (bad " ++ why ++ ")"
+  | some [.sym id, .list [.sym "redact", .list segs]] =>
+    let ss := segs.filterMap (fun x => match x with
+      | .list [.sym "lit", .str s] => some (Seg.lit s)
+      | .list [.sym "arg", .str s] => some (Seg.arg s)
+      | .list [.sym "pre", .str s] => some (Seg.pre s)
+      | _ => none)
+    let r := assemble ss
+    let all : Str := ss.foldl (fun acc g => acc ++ (match g with | .lit s => s | .arg s => s | .pre s => s)) []
+    id ++ " " ++ pList ["res", pList ["r", pStr r], pList ["strip", pStr (stripMarkers r)],
+      pList ["redacted", pStr (redactS r)], pList ["escbytes", pStr (escapeBytes all)]]
   | some [.sym id, .list [.sym "grpc", rx, .list refs]] =>
     let fuel := line.length
     match evalR fuel rx with
